@@ -33,7 +33,9 @@ RULE = ('For every method of both protocol handler tables (1.4 and 1.4.2), argum
         'or correct for its key per the model; the observer received nothing, keeps its '
         'subscriptions and its panel of queries answers as before. Non-trivial = the call got past '
         'argument-count validation (reached an electrumx handler); distinct by (method, argument '
-        'shape).')
+        'shape). In addition a deterministic sweep replaces every parameter position of every '
+        'method by every value of a boundary pool (non-finite and huge numbers, boundary integers, '
+        'odd strings, containers) in an otherwise valid call.')
 ASSUMPTIONS = ['peer discovery networking is disabled (no sockets); name resolution is the real '
                'resolver, offline', 'session throttling is off (COST_HARD_LIMIT=0)']
 BUDGET_S = {'quick': 140, 'thorough': 3300}
@@ -418,7 +420,43 @@ def body(ctx):
     return run
 
 
+BOUNDARY = SPECIAL + INTS + STRINGS + [[], {}, [1], {'a': 1}, [[]], None, True, False, 1.5, -0.5,
+                                       [VALID_SH], {'hosts': {}}]
+
+
+def sweep_calls():
+    '''Every (method, parameter position, boundary value): a valid call with exactly that field
+    replaced (or appended).  Deterministic; split over shards.'''
+    calls = []
+    for mi, method in enumerate(METHOD_NAMES):
+        names = METHODS[method]
+        for k in range(len(names) + 1):
+            for v in BOUNDARY:
+                calls.append([mi, 2, [k, v]])
+    return calls
+
+
+def run_sweep(ctx):
+    calls = sweep_calls()
+    mine = [c for i, c in enumerate(calls) if i % ctx.nshards == ctx.shard]
+    run = body(ctx)
+    for i in range(0, len(mine), 40):
+        if ctx.over_budget():
+            ctx.exhaustive = False
+            return
+        try:
+            run(mine[i:i + 40])
+        except Violation as v:
+            ctx.violations.append({'check': 'c16.calls', 'case': mine[i:i + 40],
+                                   'message': v.message, 'sig': v.sig})
+            if len(ctx.violations) >= 5:
+                return
+    ctx.extra['sweep_calls'] = ctx.extra.get('sweep_calls', 0) + len(mine)
+    ctx.extra['sweep_boundary_values_max'] = len(BOUNDARY)
+
+
 def run(ctx):
+    run_sweep(ctx)
     hyp_run(ctx, 'c16.calls', CASE, body(ctx), ctx.pick(400, 8000))
 
 
